@@ -581,8 +581,124 @@ func (a Atom) String() string {
 	return "!" + a.Cond
 }
 
-// edge identifies a CFG edge by (from block index, successor slot).
-type edge struct{ from, slot int }
+// edge identifies a CFG edge by (from block index, successor slot). pred is 0 for "whatever way the block was
+// entered"; for a block that branches on the materialised value of a short-circuit expression (see condPhi) an
+// edge can also be qualified by the predecessor the block was entered from: pred = index in Preds + 1.
+type edge struct{ from, slot, pred int }
+
+// condPhi: block b ends in an If whose condition is (a negation of) a phi defined in b itself - the shape go/ssa
+// gives `switch { case a && b: }`, `x := a || b; if x` in one block, and similar: each predecessor contributes
+// either a constant (the short-circuited operand decided the result) or the value of the last operand. The
+// reachability engines thread such a branch per predecessor, so that the conjuncts/disjuncts act as the guards
+// they are in the if-form of the same code.
+func condPhi(b *ssa.BasicBlock) (*ssa.Phi, bool, bool) {
+	if b == nil || len(b.Instrs) == 0 {
+		return nil, false, false
+	}
+	iff, ok := b.Instrs[len(b.Instrs)-1].(*ssa.If)
+	if !ok {
+		return nil, false, false
+	}
+	v, neg := iff.Cond, false
+	for {
+		if u, ok := v.(*ssa.UnOp); ok && u.Op == token.NOT {
+			v, neg = u.X, !neg
+			continue
+		}
+		break
+	}
+	ph, ok := v.(*ssa.Phi)
+	if !ok || ph.Block() != b || len(ph.Edges) != len(b.Preds) {
+		return nil, false, false
+	}
+	return ph, neg, true
+}
+
+// branchCond is one condition a branch of f tests: the If's own condition (pred 0), or - for a block threaded per
+// predecessor (condPhi) - the operand that decides the branch when the block is entered from that predecessor.
+// cond has its negations stripped; neg says whether successor 0 is taken when cond is false.
+type branchCond struct {
+	b    *ssa.BasicBlock
+	cond ssa.Value
+	neg  bool
+	pred int
+}
+
+func (bc branchCond) edge(slot int) edge { return edge{bc.b.Index, slot, bc.pred} }
+
+func stripNot(v ssa.Value) (ssa.Value, bool) {
+	neg := false
+	for {
+		if u, ok := v.(*ssa.UnOp); ok && u.Op == token.NOT {
+			v, neg = u.X, !neg
+			continue
+		}
+		return v, neg
+	}
+}
+
+func branchConds(f *ssa.Function) []branchCond {
+	var out []branchCond
+	for _, b := range f.Blocks {
+		if len(b.Instrs) == 0 {
+			continue
+		}
+		iff, ok := b.Instrs[len(b.Instrs)-1].(*ssa.If)
+		if !ok {
+			continue
+		}
+		if ph, neg, ok := condPhi(b); ok {
+			for i, e := range ph.Edges {
+				if _, isConst := e.(*ssa.Const); isConst {
+					continue
+				}
+				v, n2 := stripNot(e)
+				out = append(out, branchCond{b, v, neg != n2, i + 1})
+			}
+			continue
+		}
+		v, neg := stripNot(iff.Cond)
+		out = append(out, branchCond{b, v, neg, 0})
+	}
+	return out
+}
+
+// infeasibleThreaded: entering b from predecessor pred-1 fixes the phi to a constant that rules out successor slot.
+func infeasibleThreaded(b *ssa.BasicBlock, slot, pred int) bool {
+	if pred <= 0 {
+		return false
+	}
+	ph, neg, ok := condPhi(b)
+	if !ok || pred-1 >= len(ph.Edges) {
+		return false
+	}
+	c, ok := ph.Edges[pred-1].(*ssa.Const)
+	if !ok || c.Value == nil || c.Value.Kind() != constant.Bool {
+		return false
+	}
+	val := constant.BoolVal(c.Value) != neg // value of the If condition
+	return val != (slot == 0)
+}
+
+// predSlot: the index+1 in to.Preds of the edge (from, slot) -> to. A block that reaches `to` through both of its
+// successor slots appears twice in Preds, in slot order.
+func predSlot(from *ssa.BasicBlock, slot int, to *ssa.BasicBlock) int {
+	nth := 0
+	for s := 0; s < slot; s++ {
+		if from.Succs[s] == to {
+			nth++
+		}
+	}
+	for i, p := range to.Preds {
+		if p == from {
+			if nth == 0 {
+				return i + 1
+			}
+			nth--
+		}
+	}
+	return 0
+}
 
 // edgesEstablishing returns the CFG edges of fn on which some atom accepted by
 // match holds. match receives the canonical condition and the polarity that
@@ -599,10 +715,27 @@ func edgesEstablishing(fn *ssa.Function, match func(cond string, pol bool) bool)
 		}
 		c, pol := normCond(iff.Cond)
 		if match(c, pol) { // true edge
-			out[edge{b.Index, 0}] = true
+			out[edge{b.Index, 0, 0}] = true
 		}
 		if match(c, !pol) { // false edge
-			out[edge{b.Index, 1}] = true
+			out[edge{b.Index, 1, 0}] = true
+		}
+		if ph, neg, ok := condPhi(b); ok {
+			for i, e := range ph.Edges {
+				if _, isConst := e.(*ssa.Const); isConst {
+					continue
+				}
+				c, pol := normCond(e)
+				if neg {
+					pol = !pol
+				}
+				if match(c, pol) {
+					out[edge{b.Index, 0, i + 1}] = true
+				}
+				if match(c, !pol) {
+					out[edge{b.Index, 1, i + 1}] = true
+				}
+			}
 		}
 	}
 	return out
@@ -651,6 +784,11 @@ func reachFrom(fn *ssa.Function, from ssa.Instruction, fromBlock *ssa.BasicBlock
 		i := indexOf(b, from)
 		start = state{b, i + 1}
 	}
+	type node struct {
+		b    *ssa.BasicBlock
+		pred int // how a threaded block (condPhi) was entered; 0 otherwise
+	}
+	key := func(n node) int { return n.b.Index*256 + n.pred }
 	visited := map[int]bool{}
 	parent := map[int]int{}
 	// scan a block from idx; returns (hitTarget, blocked)
@@ -666,12 +804,12 @@ func reachFrom(fn *ssa.Function, from ssa.Instruction, fromBlock *ssa.BasicBlock
 		}
 		return false, false
 	}
-	witness := func(b int) []int {
+	witness := func(k int) []int {
 		var w []int
 		seen := map[int]bool{}
-		for x := b; !seen[x]; {
+		for x := k; !seen[x]; {
 			seen[x] = true
-			w = append([]int{x}, w...)
+			w = append([]int{x / 256}, w...)
 			p, ok := parent[x]
 			if !ok {
 				break
@@ -687,39 +825,43 @@ func reachFrom(fn *ssa.Function, from ssa.Instruction, fromBlock *ssa.BasicBlock
 	if blk {
 		return false, nil
 	}
-	queue := []*ssa.BasicBlock{}
-	push := func(from *ssa.BasicBlock) {
-		for slot, s := range from.Succs {
-			if blockedE != nil && blockedE[edge{from.Index, slot}] {
+	queue := []node{}
+	push := func(from node) {
+		for slot, s := range from.b.Succs {
+			if blockedE != nil && (blockedE[edge{from.b.Index, slot, 0}] || from.pred > 0 && blockedE[edge{from.b.Index, slot, from.pred}]) {
 				continue
 			}
-			if !visited[s.Index] {
-				visited[s.Index] = true
-				if s != start.b || start.idx == 0 {
-					// fine
-				}
-				parent[s.Index] = from.Index
-				queue = append(queue, s)
+			if infeasibleThreaded(from.b, slot, from.pred) {
+				continue
+			}
+			n := node{s, 0}
+			if _, _, ok := condPhi(s); ok {
+				n.pred = predSlot(from.b, slot, s)
+			}
+			if !visited[key(n)] {
+				visited[key(n)] = true
+				parent[key(n)] = key(from)
+				queue = append(queue, n)
 			}
 		}
 	}
 	// the start block may be re-entered from the top (loops): do not mark it visited unless idx==0
+	startN := node{start.b, 0}
 	if start.idx == 0 {
-		visited[start.b.Index] = true
+		visited[key(startN)] = true
 	}
-	delete(parent, start.b.Index)
-	push(start.b)
+	push(startN)
 	for len(queue) > 0 {
-		b := queue[0]
+		n := queue[0]
 		queue = queue[1:]
-		hit, blk := scan(b, 0)
+		hit, blk := scan(n.b, 0)
 		if hit {
-			return true, witness(b.Index)
+			return true, witness(key(n))
 		}
 		if blk {
 			continue
 		}
-		push(b)
+		push(n)
 	}
 	return false, nil
 }
